@@ -89,8 +89,9 @@ Print Assumptions c37_batch_exactly_once.
 
 (* PARTIAL (all configurations): when Close has returned, an admitted task has
    run, or was cancelled, before that return — or it has no terminal event at all,
-   the dispatcher has left, and the task is stranded in the queue / was released
-   by retryExecutor.  (BoundedPool: only a Submit that overlapped Close can be
+   the dispatcher has left, the task is stranded in the queue / was released by
+   retryExecutor, and nothing submitted after it has a terminal event either (the
+   stranded tasks are a suffix of the admission order).  (BoundedPool: only a Submit that overlapped Close can be
    stranded — that is what [c37_dpool_model_satisfies_monitor] adds.) *)
 Theorem c37_dpool_close_waits_partial : forall cf, c_workers cf <> 0 -> forall evs c sb,
   In c (d_clos (d_run cf evs)) -> In sb (d_subs (d_run cf evs)) -> s_res sb = ROk ->
@@ -99,7 +100,9 @@ Theorem c37_dpool_close_waits_partial : forall cf, c_workers cf <> 0 -> forall e
   \/ (exists k, In k (d_cans s) /\ k_task k = s_task sb /\ k_at k < l_e c)
   \/ (~ In (s_task sb) (map r_task (d_runs s) ++ map k_task (d_cans s))
       /\ d_disp s = DExit /\ s_b sb < l_e c /\ l_b c = d_cb s
-      /\ (In (s_task sb) (d_queue s) \/ In (s_task sb) (d_lost s))).
+      /\ (In (s_task sb) (d_queue s) \/ In (s_task sb) (d_lost s))
+      /\ (forall x, In x (d_subs s) -> s_e sb < s_b x ->
+            ~ In (s_task x) (map r_task (d_runs s) ++ map k_task (d_cans s)))).
 Proof. exact WK.Proof.WorkQueue_dpool.d_close_waits. Qed.
 Print Assumptions c37_dpool_close_waits_partial.
 
@@ -200,12 +203,15 @@ Proof. exact WK.Proof.WorkQueue_mailbox.m_fifo_spec. Qed.
 Print Assumptions c37_shard_fifo.
 
 (* PARTIAL close-waits: when Close has returned, an admitted item was delivered before
-   that return, or it was never delivered and its shard had a drain (K2 window) *)
+   that return, or it was never delivered, its shard had a drain, and no handler call of
+   that shard began after the item was admitted (K2 window) *)
 Theorem c37_mailbox_close_waits_partial : forall cf evs c sb,
   In c (m_clos (m_run cf evs)) -> In sb (m_subs (m_run cf evs)) -> s_res sb = ROk ->
   let s := m_run cf evs in
   (exists r, In r (m_runs s) /\ r_task r = s_task sb /\ r_e r < l_e c)
-  \/ (~ In (s_task sb) (map r_task (m_runs s)) /\ exists d, In d (m_drains s) /\ d_shard d = s_shard sb).
+  \/ (~ In (s_task sb) (map r_task (m_runs s))
+      /\ (exists d, In d (m_drains s) /\ d_shard d = s_shard sb)
+      /\ (forall r, In r (m_runs s) -> r_shard r = s_shard sb -> r_b r < s_e sb)).
 Proof. exact WK.Proof.WorkQueue_mailbox.m_close_waits. Qed.
 Print Assumptions c37_mailbox_close_waits_partial.
 
